@@ -68,8 +68,10 @@ type Tunnel struct {
 	sock   knxnet.Socket
 	config TunnelConfig
 
-	// Connection information
+	// Connection information; connMu protects channel and control, which a reconnect rewrites
+	// while senders, heartbeats and Close read them.
 	layer   knxnet.TunnelLayer
+	connMu  sync.Mutex
 	channel uint8
 	control knxnet.HostInfo
 
@@ -108,6 +110,14 @@ func (conn *Tunnel) hostInfo() (knxnet.HostInfo, error) {
 	}
 }
 
+// connInfo returns the current channel and control endpoint.
+func (conn *Tunnel) connInfo() (uint8, knxnet.HostInfo) {
+	conn.connMu.Lock()
+	defer conn.connMu.Unlock()
+
+	return conn.channel, conn.control
+}
+
 // requestConn repeatedly sends a connection request through the socket until the configured
 // reponse timeout is reached or a response is received. A response that renders the gateway as busy
 // will not stop requestConn.
@@ -118,12 +128,14 @@ func (conn *Tunnel) requestConn() (err error) {
 		return err
 	}
 
+	conn.connMu.Lock()
 	conn.control = hostInfo
+	conn.connMu.Unlock()
 
 	req := &knxnet.ConnReq{
 		Layer:   conn.layer,
-		Control: conn.control,
-		Tunnel:  conn.control,
+		Control: hostInfo,
+		Tunnel:  hostInfo,
 	}
 
 	// Send the initial request.
@@ -164,7 +176,9 @@ func (conn *Tunnel) requestConn() (err error) {
 				switch res.Status {
 				// Conection has been established.
 				case knxnet.NoError:
+					conn.connMu.Lock()
 					conn.channel = res.Channel
+					conn.connMu.Unlock()
 
 					conn.seqMu.Lock()
 					conn.seqNumber = 0
@@ -190,7 +204,8 @@ func (conn *Tunnel) requestConn() (err error) {
 func (conn *Tunnel) requestConnState(
 	heartbeat <-chan knxnet.ErrCode,
 ) (knxnet.ErrCode, error) {
-	req := &knxnet.ConnStateReq{Channel: conn.channel, Status: 0, Control: conn.control}
+	channel, control := conn.connInfo()
+	req := &knxnet.ConnStateReq{Channel: channel, Status: 0, Control: control}
 
 	// Send first connection state request
 	err := conn.sock.Send(req)
@@ -231,10 +246,12 @@ func (conn *Tunnel) requestConnState(
 
 // requestDisc sends a disconnect request to the gateway.
 func (conn *Tunnel) requestDisc() error {
+	channel, control := conn.connInfo()
+
 	return conn.sock.Send(&knxnet.DiscReq{
-		Channel: conn.channel,
+		Channel: channel,
 		Status:  0,
-		Control: conn.control,
+		Control: control,
 	})
 }
 
@@ -251,8 +268,10 @@ func (conn *Tunnel) requestTunnel(data cemi.Message) error {
 		seqNumber = conn.seqNumber
 	}
 
+	channel, _ := conn.connInfo()
+
 	req := &knxnet.TunnelReq{
-		Channel:   conn.channel,
+		Channel:   channel,
 		SeqNumber: seqNumber,
 		Payload:   data,
 	}
